@@ -291,6 +291,11 @@ async fn go(s: &mut Sim, rng: &mut Rng, g: &mut G, ix: crate::sim::Ix) -> bool {
         let p = s.rd_configure(&g.admin, RdSetting::Paused(true));
         if s.op(tx(vec![p])).await {
             s.op(tx(vec![ix.clone()])).await;
+            if let Some(cp) = ix.metas.iter().position(|m| m.0 == K::RdConfig) {   // and with a forged, "unpaused" look-alike config
+                let fake = K::User(705); let owner = rng.pick(&[K::Passport, K::Rogue(2), K::System]).clone();
+                s.forge_rd_config_ex(&g.users[11].clone(), &fake, &owner, true).await;
+                s.op(tx(vec![ix.clone().with_key(cp, &fake)])).await;
+            }
             let u = s.rd_configure(&g.admin, RdSetting::Paused(false)); s.op(tx(vec![u])).await;
         }
     }
